@@ -44,6 +44,25 @@ theorem api_is_unprivileged : ∀ p ∈ PB.Gen.DbPerm.apiInterfaces, p = (false,
     internal — the in-process constructor and the websocket endpoint alike. -/
 theorem api_constructors_unprivileged : ∀ c ∈ PB.Gen.DbPerm.apiConstructors, c.2 = (false, false) := by decide
 
+/-- The privileges an interface acts with are the ones its creator put into the options, for every cache setting: no
+    function of package database (regenerated list over all non-test files) writes `Local` / `Internal` of an `Options`
+    value, replaces the options of an `Interface`, or builds options of its own — `NewInterface` in particular raises
+    neither flag, whatever `CacheSize` / `DelayCachedWrites` say. The model's `Opts` (which every theorem below
+    quantifies over, `cache := .delay` included) are therefore the options handed to `NewInterface`. -/
+theorem source_interface_keeps_requested_privileges : PB.Gen.DbPerm.optionPrivilegeWrites = [] := by decide
+
+/-- A delayed write cache on an interface that is not both local and internal (nothing in `NewInterface` forbids the
+    combination): `FlushCache` goes through `PutMany`, which refuses it — the storage, the read cache and the
+    subscribers' feed are what they were, whatever waits in the write set. -/
+theorem flush_without_all_permissions_stores_nothing (cfg : Cfg) (o : Opts) (st : ISt) (now : Int)
+    (ha : o.all = false) :
+    (ifFlush cfg o st now).1.store = st.store ∧ (ifFlush cfg o st now).1.cache = st.cache ∧
+    (ifFlush cfg o st now).1.notes = st.notes := by
+  unfold ifFlush; split <;> simp [ha]
+
+example : (ifFlush {} { loc := true, int := false, cache := .delay }
+    { wcache := [{ key := "k" }] } 100).1.store = [] := by decide
+
 /-- More privileges never see less. -/
 theorem permitted_monotone (m : Meta) (l i l' i' : Bool) (hl : l = true → l' = true) (hi : i = true → i' = true)
     (h : m.permitted l i = true) : m.permitted l' i' = true := by
@@ -201,6 +220,34 @@ theorem no_write_through (cfg : Cfg) (o : Opts) (hd : o.cache ≠ .delay) (now :
   have hv' : vis now (m.get k) = some r := by rw [← hs.view k]; exact hv
   rw [h1, reference_no_write_through cfg o m hs.ndm now k r hv' hp op]
   exact hv'
+
+/-- Every cache setting, the delayed write cache included, and whatever waits in the write set: a single-key write
+    (put, put-new, delete, both expiry setters, both flag setters, attribute insert) aimed at a key under which the
+    storage holds a visible record the interface may not see — and of which the interface's cache holds no copy — is
+    answered `denied` and leaves storage, cache, write set and the subscribers' feed exactly as they were. (What a
+    non-privileged interface may put into its own cache and write set are records it is permitted to see:
+    `outputs_permitted` is stated for any cache and write-set content.) -/
+theorem hidden_record_write_refused_every_cache_mode (cfg : Cfg) (o : Opts) (st : ISt) (k : String) (r : Rec) (now : Int)
+    (hc : st.cache.get k = none) (hs : st.store.get k = some r) (hv : r.md.valid now = true)
+    (hp : r.md.permitted o.loc o.int = false) (op : Op)
+    (hop : (∃ x, op = .put x ∧ x.key = k) ∨ (∃ x, op = .putNew x ∧ x.key = k) ∨ op = .delete k ∨ (∃ t, op = .setAbs k t) ∨
+      (∃ d, op = .setRel k d) ∨ op = .mkSecret k ∨ op = .mkCrown k ∨ (∃ a p, op = .insert k a p)) :
+    Db.step cfg o st op now = (st, .err .denied) := by
+  have ha : o.all = false := by
+    cases hl : o.loc <;> cases hi : o.int <;> simp_all [Opts.all, Meta.permitted]
+  have hg : getRecord cfg o st k now = (.error .denied, st) := by
+    unfold getRecord checkCache
+    by_cases hn : o.cache = .none <;> simp [hn, hc, ctlGet, hs, hv, Opts.hasAccess, ha, hp]
+  have hm : getMeta cfg o st k now = (.error .denied, st) := by
+    unfold getMeta checkCache
+    by_cases hn : o.cache = .none <;> simp [hn, hc, ctlGet, hs, hv, hp]
+  rcases hop with ⟨x, rfl, rfl⟩ | ⟨x, rfl, rfl⟩ | rfl | ⟨t, rfl⟩ | ⟨d, rfl⟩ | rfl | rfl | ⟨a, p, rfl⟩
+  · simp [Db.step, ifPut, ha, hm]
+  · simp [Db.step, ifPut, ha, hm]
+  all_goals simp [Db.step, ifModify, ifInsert, hg]
+
+example : (Db.step {} { loc := false, int := false, cache := .delay }
+    { store := [{ key := "k", md := { secret := true } }], wcache := [{ key := "j" }] } (.delete "k") 100).2 = .err .denied := by decide
 
 /-! ### An interface can learn at most that the key exists -/
 
